@@ -697,6 +697,43 @@ def gen_seg_seq(seed, n, tags):
     return out
 
 
+def gen_seg_pool(seed, n, tags):
+    """Groups of two.  Client A's request arrives in two reads and is consumed; A then leaves the beginning of another
+    request pending (a truncated message, as far as the proxy can tell); client B's request arrives in two reads.  B -
+    and A, once it sends the rest - must be served exactly as when everything arrives whole (base)."""
+    rng = random.Random("segpool/%s" % seed)
+    slots = ["A", "A2", "B", "C"]
+    out = []
+
+    def one(k=None):
+        k = k or rng.choice(["get", "set", "mget", "mset", "del"])
+        if k in ("get", "set"):
+            return {"k": k, "slots": [rng.choice(slots)], "dups": [-1]}
+        sl, du = gen_keylist(rng, 3, slots)
+        return {"k": k, "slots": sl, "dups": du}
+    for p in range(n):
+        pairs = [("c1", "c2"), ("c3", "c4")][:rng.choice([1, 2])]
+        plan = [(a, b, one(), one(), one()) for a, b in pairs]
+        for v in range(2):
+            steps = []
+            for a, b, r1, r2, r3 in plan:
+                cut = lambda c, i, r: [rng.randint(2, len(concrete(tags, c, i, r)) - 2)]
+                if v == 0:
+                    steps += [{"stim": [{"op": "send", "c": a, "reqs": [r1]}]}, {"stim": [], "settle": True}] + drain_steps(1, 6)
+                    steps += [{"stim": [{"op": "send", "c": b, "reqs": [r3]}]}, {"stim": [], "settle": True}] + drain_steps(1, 6)
+                    steps += [{"stim": [{"op": "send", "c": a, "reqs": [r2]}]}, {"stim": [], "settle": True}] + drain_steps(1, 6)
+                else:
+                    steps += [{"stim": [{"op": "send", "c": a, "reqs": [r1], "kind": "hold", "cuts": cut(a, 1, r1)}]}, {"stim": []},
+                              {"stim": [{"op": "sendrest", "c": a}]}, {"stim": [], "settle": True}] + drain_steps(1, 6)
+                    steps += [{"stim": [{"op": "send", "c": a, "reqs": [r2], "kind": "hold", "cuts": cut(a, 2, r2)}]}, {"stim": []},
+                              {"stim": [{"op": "send", "c": b, "reqs": [r3], "kind": "hold", "cuts": cut(b, 1, r3)}]}, {"stim": []},
+                              {"stim": [{"op": "sendrest", "c": b}]}, {"stim": [], "settle": True}] + drain_steps(1, 6)
+                    steps += [{"stim": [{"op": "sendrest", "c": a}]}, {"stim": [], "settle": True}] + drain_steps(1, 6)
+            steps += drain_steps(1, 6)
+            out.append(_norm({"id": "segpool-%s-%d-%d" % (seed, p, v), "role": "base" if v == 0 else "seg", "steps": json.loads(json.dumps(steps))}))
+    return out
+
+
 def gen_seg_wrap(seed, n, tags):
     """Groups of six: a pipeline of a few thousand bytes whole (base) and in three to six segments that end inside
     requests, with cuts near the sizes at which the inbound ring buffer is created and grows (1024, 2048, 4096 ...), so
